@@ -639,3 +639,26 @@ Section RefsOk.
     fields_ref_ok (dotted pkg) at_ ns (in_locals full m) fs
     && all_non_entry (refs_ok pkg module full (parent ++ [n])%list) ns.
 End RefsOk.
+
+(* ------------------------------------------------------------------ file level: the hypotheses of the round trip, decidable *)
+Fixpoint msgs_ok (api : apiD) (names : list string) (tab : modtab) (ltypes : typeset) (pkg : list string) (module : string)
+                 (globals : scope) (ms : list msgD) : bool :=
+  match ms with
+  | [] => true
+  | m :: ms' =>
+      wf_msg pkg module (dotted pkg) [] m
+      && refs_ok api names tab ltypes globals pkg module (dotted pkg) [] m
+      && msgs_ok api names tab ltypes pkg module ((m_name m, PVType (dotted pkg ++ "." ++ m_name m)) :: globals) ms'
+  end.
+Definition enum_globals (pkgs : string) (es : list enumD) (g : scope) : scope :=
+  fold_left (fun g e => (e_name e, PVType (pkgs ++ "." ++ e_name e)) :: g) es g.
+Definition file_ok (api : apiD) (tab : modtab) (f : fileD) : bool :=
+  let h := emit_header api f in
+  let pkgs := dotted (fd_pkg f) in
+  match h_proto_alias h with
+  | None => false
+  | Some _ =>
+      forallb enum_ok (fd_enums f)
+      && msgs_ok api (proto_names api f) tab (flat_map (decl_types pkgs) (emit_file api f)) (fd_pkg f) (fd_module f)
+                 (enum_globals pkgs (fd_enums f) (initial_globals h)) (fd_msgs f)
+  end.
